@@ -174,9 +174,11 @@ func scenarios() []scen {
 	return []scen{
 		{name: "S1-commit-3tx-2in-valid", qb: 2, tb: 3, horizon: 4000, events: []string{"b0"}, expect: "b0=ok", blocks: func(p *chainx.Prefix) []*reftx.Block {
 			n := p.Named
-			t1 := grind(sp([]OP{n["F0.0"], n["F1.0"]}, []reftx.Out{bigOut(10e8, 1500), o1(10e8)}), 0x42)
-			t2 := grind(sp([]OP{n["F0.1"], n["F2.0"]}, []reftx.Out{bigOut(10e8, 1500), o1(10e8)}), 0x42)
-			t3 := grind(sp([]OP{n["F1.1"], {Tx: t1.TxID(), Vout: 1}}, []reftx.Out{bigOut(10e8, 1500), o1(10e8)}), 0x42)
+			// 3 x ~3 KB transactions: BuildTxListExt hashes them in several 4096-byte packs,
+			// each in its own goroutine, all adding to one block-weight counter
+			t1 := grind(sp([]OP{n["F0.0"], n["F1.0"]}, []reftx.Out{bigOut(10e8, 3000), o1(10e8)}), 0x42)
+			t2 := grind(sp([]OP{n["F0.1"], n["F2.0"]}, []reftx.Out{bigOut(10e8, 3000), o1(10e8)}), 0x42)
+			t3 := grind(sp([]OP{n["F1.1"], {Tx: t1.TxID(), Vout: 1}}, []reftx.Out{bigOut(10e8, 3000), o1(10e8)}), 0x42)
 			return []*reftx.Block{blk(p, p.Tip, p.Height+1, 1, 0, t1, t2, t3)}
 		}},
 		{name: "S1-signatures-with-in-block-spend", qb: 2, tb: 3, horizon: 4000, events: []string{"b0"}, expect: "b0=ok", blocks: func(p *chainx.Prefix) []*reftx.Block {
@@ -721,7 +723,10 @@ func main() {
 				for _, l := range strings.Split(rep, "\n") {
 					l = strings.TrimSpace(l)
 					if strings.HasPrefix(l, "github.com/piotrnar/gocoin/") && !strings.Contains(l, "/vshim/") {
-						fn = strings.SplitN(strings.TrimPrefix(l, "github.com/piotrnar/gocoin/"), "(", 2)[0]
+						fn = strings.TrimPrefix(l, "github.com/piotrnar/gocoin/")
+						if i := strings.LastIndex(fn, "("); i > 0 {
+							fn = fn[:i] // drop the argument list, keep receiver and closure names
+						}
 						break
 					}
 				}
